@@ -145,6 +145,8 @@ func holeClass(h *SHole) string {
 		return "user-section"
 	case p == "$match" || p == "$match[1:]":
 		return "digits"
+	case (strings.HasPrefix(p, "strconv.Itoa(") || strings.HasPrefix(p, "fmt.Sprint(")) && strings.HasSuffix(p, ")") && h.Itoa:
+		return "digits" // the decimal text of an integer (optionally signed)
 	}
 	return "other"
 }
